@@ -8,7 +8,11 @@
    Python values at this point (pval):
      PNone                 None (can only sit inside a DictionaryProperty value)
      PBool/PInt/PFloat/PStr  bool / int / float (by repr text) / str
-     PTime t               a STIXdatetime whose format_datetime text is t
+     PStamp ym p c t       a STIXdatetime: the UTC instant t (microseconds since
+                           0001-01-01T00:00:00Z) with its precision settings; its JSON
+                           string is C15's model of format_datetime
+                           (Model/Timestamp.v: format; ym = the year padding variant)
+     PTime t               a STIXdatetime given directly by its format_datetime text t
                            (json.dumps(value, cls=STIXJSONEncoder) then quotes
                            stripped and JSON escapes undone; the text of a
                            timestamp has none, so the result is t itself)
@@ -19,6 +23,7 @@
    Values of other Python types (bytes, Decimal, custom classes) are outside the model. *)
 From Coq Require Import String NArith ZArith List Bool.
 From V Require Import Base.UString Base.Json Model.JcsText Model.Jcs.
+From V Require Model.Timestamp.
 Import ListNotations.
 Open Scope N_scope.
 
@@ -29,6 +34,7 @@ Inductive pval :=
 | PFloat (repr : ustring)
 | PStr (s : ustring)
 | PTime (text : ustring)
+| PStamp (ym : Timestamp.year_mode) (p : Timestamp.precision) (c : Timestamp.pconstraint) (t : Z)
 | PList (l : list pval)
 | PDict (m : list (ustring * pval)).
 
@@ -50,6 +56,7 @@ Fixpoint jsonable (v : pval) : ires jvalue :=
   | PFloat r => IOk (JFloat r)
   | PStr s => IOk (JStr s)
   | PTime t => IOk (JStr t)
+  | PStamp ym p c t => IOk (JStr (Timestamp.format ym p c t))
   | PList l =>
       match (fix go (l : list pval) : ires (list jvalue) :=
                match l with
